@@ -342,6 +342,17 @@ def shortcut_condition(P: Program, R: Report) -> None:
                 continue
             neg = isinstance(ge, ast.UnaryOp) and isinstance(ge.op, ast.Not)
             inner = ge.operand if neg else ge
+            if isinstance(inner, ast.Name):
+                # a boolean flag: `needs_relabel = False ... needs_relabel = not np.array_equal(..)`; constant definitions are the
+                # skip cases, the computed one is the condition
+                fdefs = [a.value for a in ast.walk(h.node) if isinstance(a, ast.Assign) and any(isinstance(t, ast.Name) and t.id == inner.id for t in a.targets)
+                         and not isinstance(a.value, ast.Constant)]
+                if len(fdefs) == 1:
+                    d0 = fdefs[0]
+                    dneg = isinstance(d0, ast.UnaryOp) and isinstance(d0.op, ast.Not)
+                    neg = neg != dneg
+                    inner = d0.operand if dneg else d0
+                    neg_flag_root = True
             for x in ast.walk(inner):
                 if isinstance(x, ast.Call) and call_name(x) == "array_equal" and len(x.args) == 2:
                     eq_calls.append((neg and x is inner, {hr.text(x.args[0]), hr.text(x.args[1])}))
